@@ -1,6 +1,6 @@
 import BridgeVerif.Translated.ThreadsMainALemmasB
 /-! Translated `MainThread.bidding_phase`: one turn of the `while not bidding_env.has_done()` loop -/
-namespace Bridge.Translated
+namespace Bridge.Translated.MainA
 open Bridge Bridge.Py Bridge.Generated.PyCore
 
 /-- the main thread object -/
@@ -299,4 +299,4 @@ theorem preprocessBid_of_alert (msg : Str) (h : hasAlert msg = true) : preproces
   rw [hasAlert_eq] at h
   simp only [preprocessBid, h, if_true]
 
-end Bridge.Translated
+end Bridge.Translated.MainA
